@@ -106,7 +106,8 @@ Theorem C19_mismatch_values : forall ts ps vs m,
      wf_param t = true /\
      (is_pat_lit p = true -> knows_debug t = true) /\
      (pat_kind p = AKLitStr -> knows_debug t = true) /\
-     stmt_compiles (pat_kind p) t p = true) ->
+     stmt_compiles (pat_kind p) t p = true /\
+     (t = TB BImp -> p = SWild)) ->
   In m (diag_input ts {| mi_alts := [ps]; mi_guard := None |} vs) ->
   nth_error (debug_inputs ts vs) (mm_input m) = Some (mm_actual m).
 Proof. exact mismatch_values_single. Qed.
@@ -128,6 +129,23 @@ Qed.
    harness' naming convention *)
 Theorem C19_core_rendering : forall info e, render_error_x info core_names e [] = render_error info e.
 Proof. exact render_error_x_core. Qed.
+
+(* a `&mut L<'a>` parameter (the macro's Impossible class) keeps its own entry, at its own position: the call
+   Sink::write_at(7, <cursor>, "t") is rendered  Sink::write_at(7, Impossible, "t") *)
+Theorem C19_impossible_keeps_its_position : forall (pre post : list pty) (vpre vpost : list value) (v : value),
+  length pre = length vpre ->
+  nth_error (debug_inputs (pre ++ TB BImp :: post) (vpre ++ v :: vpost)) (length pre) = Some (Some "Impossible")
+  /\ length (debug_inputs (pre ++ TB BImp :: post) (vpre ++ v :: vpost))
+     = Nat.min (length (pre ++ TB BImp :: post)) (length (vpre ++ v :: vpost)).
+Proof.
+  intros pre post vpre vpost v H. split.
+  - apply (debug_inputs_nth _ _ (length pre) (TB BImp) v).
+    + rewrite nth_error_app2 by apply le_n. rewrite Nat.sub_diag. reflexivity.
+    + rewrite H, nth_error_app2 by apply le_n. rewrite Nat.sub_diag. reflexivity.
+  - generalize (pre ++ TB BImp :: post)%list (vpre ++ v :: vpost)%list. clear.
+    induction l as [|t l IH]; intros [|w l']; cbn [debug_inputs length Nat.min]; try reflexivity.
+    f_equal. apply IH.
+Qed.
 
 (* non-vacuity: a 4-ary method (i32, &Nd, &[i32], T), pattern (_, A, [1, ..], _): the
    wildcards at 0 and 3 are never listed, positions 1 and 2 are, with `?` for the non-Debug
